@@ -35,7 +35,9 @@ Record cfg : Type := mkCfg {
   isName : N -> bool;    (* isNameChar *)
   isFirstName : N -> bool;
   isWS : N -> bool;      (* isWhitespace *)
-  isNCName : N -> bool   (* isNCNameChar *)
+  isNCName : N -> bool;  (* isNCNameChar *)
+  nelcol : bool          (* handleEOL counts a column for NEL / LS when they are ordinary characters (XML 1.0 rules):
+                            repair fixes/C04-nel-column.patch, finding FD; false = as written before the repair *)
 }.
 
 Record reader : Type := mkR {
@@ -183,7 +185,8 @@ Definition handle_eol (c : cfg) (r : reader) (ch : N) : res (reader * N) rerr :=
     end
   else if ch =? 0xA then Ok (set_pos r (line r + 1) 1, ch)
   else if (ch =? 0x85) || (ch =? 0x2028) then
-    if nel c then Ok (set_pos r (line r + 1) 1, 0xA) else Ok (r, ch)       (* note: no column step *)
+    if nel c then Ok (set_pos r (line r + 1) 1, 0xA)
+    else Ok ((if nelcol c then add_col r 1 else r), ch)     (* as written: no column step (finding FD) *)
   else Ok (add_col r 1, ch).
 
 (** the test "chGotten & ~(chCR|chLF|chNEL|chLineSeparator)" : non-zero means ordinary character *)
@@ -445,7 +448,7 @@ Definition get_name (c : cfg) (fuel : nat) (r : reader) (token : bool) : res (re
 (** * XMLReader::getNCName and getQName (same look-ahead and append-before-refresh structure as getName; the loop over
       name characters is [name_loop] with the NCName character class) *)
 Definition with_name_class (c : cfg) (f : N -> bool) : cfg :=
-  mkCfg (X c) (cbsz c) (rbsz c) (low c) (fillraw c) (safename c) (nel c) f (isFirstName c) (isWS c) (isNCName c).
+  mkCfg (X c) (cbsz c) (rbsz c) (low c) (fillraw c) (safename c) (nel c) f (isFirstName c) (isWS c) (isNCName c) (nelcol c).
 
 (** [acc0] = content already in toFill (reversed), for the second half of a QName *)
 Definition get_ncname_into (c : cfg) (fuel : nat) (r : reader) (acc0 : list N) : res (reader * (bool * list N)) rerr :=
